@@ -13,6 +13,7 @@ from ..explore import E1Check
 MODES = ("normal", "exc", "cancel", "tdraise")
 SHAPES = ("()", "()()", "(())")
 SPAWNS = ("tg", "service", "factory", "component")
+EXTRA_SPAWNS = ("service-outer", "factory-outer")
 
 
 class HE(Exception):
@@ -54,6 +55,11 @@ class C12(E1Check):
                     continue
                 for sc in allsc:
                     progs.append({"depth": depth, "tasks": [{"spawn": spawn, "script": sc}]})
+        for sc in allsc[::3] if tier == "quick" else allsc:
+            for spawn in EXTRA_SPAWNS:
+                progs.append({"depth": 2, "tasks": [{"spawn": spawn, "script": sc}]})
+            for spawn in ("tg", "component", "service"):
+                progs.append({"depth": 1, "explicit": True, "tasks": [{"spawn": spawn, "script": sc}]})
         if tier == "quick":
             one = scripts()[:4]
             two = one + [[("normal", [("exc", [])])], [("cancel", []), ("tdraise", [])], [("tdraise", [("cancel", [])])], [("exc", []), ("normal", [])]]
@@ -120,7 +126,7 @@ class C12(E1Check):
             mode, children = node
             await env.gate(f"t{t}.{path}.enter")
             check(t, stack, f"before entering {path}")
-            ctx = Context()
+            ctx = Context(cur()) if program.get("explicit") and cur() is not None else Context()
             names[id(ctx)] = f"t{t}:{path}"
             if ctx.parent is not new_parent:
                 fails.append(("parent", f"task {t}: Context() created at {path} has parent {_d(ctx.parent)}, expected {_d(new_parent)}"))
@@ -173,6 +179,25 @@ class C12(E1Check):
                 kind = spec["spawn"]
                 if kind == "tg":
                     tg.start_soon(task_body, t, spec, lambda b, owner=owner: None if b is owner else f"inherited {_d(b)}, the spawner's current context is {_d(owner)}")
+                elif kind in ("service-outer", "factory-outer"):
+                    # the owner is an outer context, not the one that is current where the task is started
+                    far = outer[0]
+
+                    def v4(b: Any, far: Any = far) -> Any:
+                        chain = []
+                        c = b
+                        while c is not None:
+                            chain.append(c)
+                            c = c.parent
+                        if b is None or b is far or far not in chain or any(o in chain for o in outer[1:]):
+                            return f"task context {_d(b)} does not inherit from the context it was started on ({_d(far)}) but from {[_d(x) for x in chain[1:]]}"
+                        return None
+
+                    if kind == "service-outer":
+                        await far.start_service_task(lambda t=t, spec=spec, v4=v4: task_body(t, spec, v4), f"svc{t}")
+                    else:
+                        factory = await far.start_background_task_factory()
+                        factory.start_task_soon(lambda t=t, spec=spec, v4=v4: task_body(t, spec, v4), f"ft{t}")
                 elif kind == "service":
                     def v(b: Any, owner: Any = owner) -> Any:
                         if b is None or b is owner or b.parent is not owner:
